@@ -194,3 +194,10 @@ contract("RelativeSequence.split", params={"self": "ref:RelativeSequence", "capa
                  ("next", FRESHSEQ("next_sequence")), ("queue", FRESHL("next_sequence_queue")), ("queue_waits_timed", WAITS_TIMED("next_sequence_queue")), ("separate_inner", SEP_IN), ("count", "len(split_sequences) <= loop_index('L1')")]),
          },
          props=["C08", "C16"])
+
+# ---------------------------------------------------------------- get_sequence_duration_relation (C10)
+contract("RelativeSequence.get_sequence_duration_relation", params={"self": "ref:RelativeSequence"}, result="real",
+         requires=[WF_REL()], modifies={},
+         ensures=[("duration_in_quarters", f"result * PPQN == wsum({M}, len({M}))")],
+         loops={"L0": dict(fingerprint="for msg in self._messages", inv=[("sum", f"duration == wsum({M}, i)")])},
+         props=["C10"])
